@@ -71,7 +71,7 @@ proof fn lemma_char_len_bounds(ws: Seq<WordShape>, n: int)
 #[verifier::external_body]
 fn text_match(rtext: &TextRef, qtext: &TextRef) -> (ret: (Vec<WordMatch>, Vec<WordMatch>))
     requires text_wf(rtext), text_wf(qtext), text_small(rtext), text_small(qtext),
-    ensures tm_post(rtext, qtext, ret), tm_some(rtext, qtext, ret), tm_empty(qtext, ret), tm_first(rtext, qtext, ret), tm_fin(qtext, ret),
+    ensures tm_post(rtext, qtext, ret), tm_some(rtext, qtext, ret), tm_empty(qtext, ret), tm_first(rtext, qtext, ret), tm_fin(qtext, ret), tm_c14(rtext, qtext, ret),
 { unimplemented!() }
 // C08: slot k of the score vector holds component k, in the documented priority order
 pub open spec fn slots_ok(h: Hit) -> bool {
@@ -255,6 +255,8 @@ pub fn score(query: &TextRef, hit: &mut Hit)
         &&& tm_some(&h.title, query, (h.rmatches, h.qmatches)) // [C03 C13]
         // C13 (TM-first / TM-fin): ... the first query word itself is matched; unfinished matches only with an unfinished query word
         &&& tm_first(&h.title, query, (h.rmatches, h.qmatches)) && tm_fin(query, (h.rmatches, h.qmatches)) // [C13]
+        // C14: a title word spelled as the first two query words, or two title words run together in the first query word, gives a match
+        &&& tm_c14(&h.title, query, (h.rmatches, h.qmatches)) // [C14]
         // C12 / C09: a query without words leaves the hit without matches; the slots as one predicate (for Store::search)
         &&& (query.words@.len() == 0 ==> ms.len() == 0) // [C12 C09]
         &&& slots_ok(h) // [C08 C12 C07]
